@@ -140,9 +140,11 @@ where
                 }
             }
         } else if let Some(ref mut service_stream) = last_service_stream {
-            // flush buffer
-            client_writer.write_all(client_bufreader.buffer())?;
-            let service_writer = service_stream.try_clone()?;
+            let mut service_writer = service_stream.try_clone()?;
+            // bytes the client sent right behind the upgrade request are already buffered:
+            // they belong to the service
+            service_writer.write_all(client_bufreader.buffer())?;
+            service_writer.flush()?;
             let service_reader = WatchClose::new_read(service_stream.as_ref(), &client_writer)?;
             let client_reader = WatchClose::new_read(&client_reader, service_stream.as_ref())?;
 
@@ -154,7 +156,6 @@ where
                 let copy1 = thread::spawn({
                     let tx_end = tx_end.clone();
                     let mut client_reader = client_reader;
-                    let mut service_writer = service_writer;
 
                     move || {
                         let r = copy(&mut client_reader, &mut service_writer);
